@@ -32,6 +32,10 @@ func resetPathState() {
 	guardOn = false
 	frozenMaps = nil
 	frozenCells = nil
+	onceCellsPath, onceMapsPath = nil, nil
+	onceStack = onceStack[:0]
+	doneOnceCall = nil
+	loadBarrierOn = false
 	onceExtent = 0
 	sharedWrites = nil
 	onceDonePath = map[*value]bool{}
@@ -47,10 +51,104 @@ func guardCells(cells []value, flag uint8) {
 	guardOn = true
 }
 
+// ---- Once-ordered first use (C07 b): cells stored inside a (*sync.Once).Do extent are
+// "Once-initialised"; within one call (vp.NewCall marks the boundaries) a load of such a cell
+// must be preceded by Do on the same Once, otherwise the load is not ordered after the
+// initialising store by the Go memory model.
+
+type onceFrame struct {
+	p      *value
+	global bool
+}
+
+var (
+	onceStack       []onceFrame
+	onceCellsGlobal = map[*value]*value{} // cell -> Once (Once objects reachable from package globals; persists across paths)
+	onceCellsPath   map[*value]*value     // cell -> Once (Once objects of this path)
+	onceMapsGlobal  = map[*omap]*value{}
+	onceMapsPath    map[*omap]*value
+	doneOnceCall    map[*value]bool
+	loadBarrierOn   bool
+	globalCells     map[*value]bool
+)
+
+func isGlobalCell(i *interpreter, p *value) bool {
+	if globalCells == nil {
+		globalCells = map[*value]bool{}
+		save1, save2 := frozenCells, frozenMaps
+		freezeReachable0(i, nil, "github.com/yuin/goldmark")
+		for c := range frozenCells {
+			globalCells[c] = true
+		}
+		frozenCells, frozenMaps = save1, save2
+	}
+	return globalCells[p]
+}
+
+func noteOnceStore(addr *value) {
+	top := onceStack[len(onceStack)-1]
+	if top.global {
+		onceCellsGlobal[addr] = top.p
+		return
+	}
+	if onceCellsPath == nil {
+		onceCellsPath = map[*value]*value{}
+	}
+	onceCellsPath[addr] = top.p
+}
+
+func noteOnceMapStore(m *omap) {
+	top := onceStack[len(onceStack)-1]
+	if top.global {
+		onceMapsGlobal[m] = top.p
+		return
+	}
+	if onceMapsPath == nil {
+		onceMapsPath = map[*omap]*value{}
+	}
+	onceMapsPath[m] = top.p
+}
+
+// checkLoad is called before loads while the load barrier is on.
+func checkLoad(addr *value) {
+	if len(onceStack) > 0 {
+		return
+	}
+	o, ok := onceCellsGlobal[addr]
+	if !ok {
+		if o, ok = onceCellsPath[addr]; !ok {
+			return
+		}
+	}
+	if !doneOnceCall[o] {
+		doneOnceCall[o] = true // report once per call
+		X.violation("monitor", "load of Once-initialised shared state that is not preceded by Do on that Once in the same call", X.model, X.stack(12))
+	}
+}
+
+func checkMapLoad(m *omap) {
+	if len(onceStack) > 0 || m == nil {
+		return
+	}
+	o, ok := onceMapsGlobal[m]
+	if !ok {
+		if o, ok = onceMapsPath[m]; !ok {
+			return
+		}
+	}
+	if !doneOnceCall[o] {
+		doneOnceCall[o] = true
+		X.violation("monitor", "read of a Once-initialised shared map that is not preceded by Do on that Once in the same call", X.model, X.stack(12))
+	}
+}
+
 // checkStore is called before every store into *addr.
 func checkStore(addr *value) {
 	if !guardOn {
 		return
+	}
+	if len(onceStack) > 0 {
+		noteOnceStore(addr)
 	}
 	if f, ok := guarded[addr]; ok {
 		storeFault(f)
@@ -76,6 +174,9 @@ func storeFault(f uint8) {
 }
 
 func checkMapStore(m *omap) {
+	if guardOn && len(onceStack) > 0 {
+		noteOnceMapStore(m)
+	}
 	if !guardOn || frozenMaps == nil {
 		return
 	}
